@@ -136,6 +136,7 @@ Definition emit (s : state) (l : label) : list aev :=
           | _ => []
           end
       | LFinish m => [AEnd m]
+      | LFail m => [AEnd m]
       | LCall c => [ACloseCall c]
       | LClose c =>
           match cp s c with
